@@ -640,8 +640,42 @@ def rule_stale_swap_read(ctx: Ctx) -> None:
                              func="CompilerBase.compile", construct=f"compile: {short(st, 70)} inside swap of {field}")
                 else:
                     ctx.ok("effect.stale-swap-read", m, body[first], what=f"swap of {field}: later halves built from the saved copy")
-    if regions == 0:
-        raise AnalysisError("effect.stale-swap-read: no save/overwrite/restore region found in CompilerBase.compile")
+    # companion: every temporary overwrite of a field of the circuit's own operation object is undone in the same block
+    loops_ = [l for l in ast.walk(fn) if isinstance(l, ast.For) and isinstance(l.target, ast.Name)
+              and any(call_name(c) == "self.compile_one_gate" for c in calls_in(l))]
+    if not loops_:
+        raise AnalysisError("compile: the loop over the circuit's operations was not found")
+    opv = loops_[0].target.id
+    unrestored = 0
+    writes_total = 0
+    for blk_owner in ast.walk(loops_[0]):
+        for attr in ("body", "orelse"):
+            body = getattr(blk_owner, attr, None)
+            if not (isinstance(body, list) and body and isinstance(body[0], ast.stmt)):
+                continue
+            fields = {}
+            for j, st in enumerate(body):
+                if isinstance(st, ast.Assign):
+                    for t in st.targets:
+                        if isinstance(t, ast.Attribute) and isinstance(t.value, ast.Name) and t.value.id == opv:
+                            fields.setdefault(norm(t), []).append(j)
+            for field, js in fields.items():
+                writes_total += len(js)
+                saved = {st.targets[0].id for j, st in enumerate(body[: js[0]]) if isinstance(st, ast.Assign) and isinstance(st.targets[0], ast.Name)
+                         and norm(st.value) == field}
+                last = body[js[-1]]
+                if isinstance(last.value, ast.Name) and last.value.id in saved:
+                    ctx.ok("effect.stale-swap-read", m, last, what=f"{field} restored from its saved value at the end of the block")
+                else:
+                    unrestored += 1
+                    ctx.fail("effect.stale-swap-read", m, last,
+                             f"compile() overwrites `{field}` of the circuit's own operation and the block ends with `{short(last, 60)}` instead of putting "
+                             f"the saved original back: the circuit object keeps the temporary value, so compiling the same circuit again (or on the "
+                             f"other backend) applies different noise", func="CompilerBase.compile", construct=f"compile: {field} not restored after temporary overwrite")
+    if regions == 0 and writes_total == 0:
+        ctx.ok_abstract("effect.stale-swap-read", "compile() never overwrites a field of the circuit's operations")
+    elif regions == 0 and unrestored == 0:
+        raise AnalysisError("effect.stale-swap-read: overwrites of an operation field found but no save/overwrite/restore region recognised in CompilerBase.compile")
 
 
 
@@ -798,3 +832,63 @@ def rule_consumed_tableau(ctx: Ctx, rels: List[str]) -> None:
                             ctx.ok("effect.consumed-tableau", m, st)
     if n == 0:
         raise AnalysisError("effect.consumed-tableau: no call of a gate-applying function with tuple result found")
+
+
+# --------------------------------------------------------------------------- in-place edits through a property getter
+
+
+def rule_getter_alias(ctx: Ctx, consumer_rels: List[str], state_classes: List[Tuple[str, str]]) -> None:
+    """effect.getter-alias: code that edits in place what a property getter handed out (`m = rep.mixture; m[i] = ...`) and never
+    assigns it back relies on the getter returning the stored object itself.  Each such (consumer, getter) pair is checked: the
+    getter must `return self.<field>`; a getter that returns a copy (list(...), .copy(), a slice, a comprehension) makes the
+    consumer's update vanish."""
+    repo = ctx.repo
+    getters: Dict[str, List[Tuple[str, ast.FunctionDef, Module]]] = {}
+    for rel, cname in state_classes:
+        ci = repo.cls(cname, rel)
+        for st in ci.node.body:
+            if isinstance(st, ast.FunctionDef) and any(isinstance(d, ast.Name) and d.id == "property" for d in st.decorator_list):
+                getters.setdefault(st.name, []).append((cname, st, repo.module(rel)))
+    sites = 0
+    for rel in consumer_rels:
+        m = repo.module(rel)
+        for fn in [f for f in ast.walk(m.tree) if isinstance(f, ast.FunctionDef)]:
+            for a in [n for n in ast.walk(fn) if isinstance(n, ast.Assign) and len(n.targets) == 1 and isinstance(n.targets[0], ast.Name)
+                      and isinstance(n.value, ast.Attribute) and n.value.attr in getters]:
+                local, recv, attr = a.targets[0].id, norm(a.value.value), a.value.attr
+                stores = [s_ for s_ in ast.walk(fn) if isinstance(s_, (ast.Assign, ast.AugAssign))
+                          and any(isinstance(t, ast.Subscript) and isinstance(t.value, ast.Name) and t.value.id == local
+                                  for t in (s_.targets if isinstance(s_, ast.Assign) else [s_.target]))]
+                stores += [c for c in calls_in(fn) if isinstance(c.func, ast.Attribute) and isinstance(c.func.value, ast.Name) and c.func.value.id == local
+                           and c.func.attr in ("append", "extend", "insert", "pop", "remove", "clear", "sort", "reverse")]
+                if not stores:
+                    continue
+                written_back = any(isinstance(w, ast.Assign) and any(isinstance(t, ast.Attribute) and t.attr == attr and norm(t.value) == recv for t in w.targets)
+                                   for w in ast.walk(fn))
+                if written_back:
+                    continue
+                # which classes can the receiver be?  use the isinstance guard that dominates the site when there is one
+                guard_cls = None
+                p_ = parent(a)
+                while p_ is not None and p_ is not fn:
+                    if isinstance(p_, ast.If):
+                        for c in ast.walk(p_.test):
+                            if isinstance(c, ast.Call) and call_name(c) == "isinstance" and norm(c.args[0]) == recv and any(a is x for b_ in p_.body for x in ast.walk(b_)):
+                                guard_cls = norm(c.args[1]).split(".")[-1]
+                    p_ = parent(p_)
+                for cname, g, gm in getters[attr]:
+                    if guard_cls is not None and cname != guard_cls:
+                        continue
+                    sites += 1
+                    ctx.touch(m, fn)
+                    rets = [r for r in ast.walk(g) if isinstance(r, ast.Return) and r.value is not None]
+                    same = rets and all(isinstance(r.value, ast.Attribute) and isinstance(r.value.value, ast.Name) and r.value.value.id == "self" for r in rets)
+                    if same:
+                        ctx.ok("effect.getter-alias", m, stores[0], what=f"{qualname(fn)} edits {cname}.{attr} in place; the getter returns the stored object")
+                    else:
+                        ctx.fail("effect.getter-alias", gm, g,
+                                 f"{qualname(fn)} updates `{recv}.{attr}` in place (`{short(stores[0], 60)}`) and never assigns it back, but {cname}.{attr} "
+                                 f"returns `{short(rets[0].value, 50) if rets else '?'}` — a new object: the update is lost (e.g. photon loss no longer "
+                                 f"reduces the total weight of a mixed stabilizer state, so the two backends disagree)", func=f"{cname}.{attr}",
+                                 construct=f"{cname}.{attr}: getter returns a copy but {qualname(fn)} edits it in place")
+    # zero sites is caught by the caller's instance floor (findings of other rules take precedence over it)
